@@ -81,6 +81,9 @@ pub enum Kind {
     Order,
 }
 
+/// marks a row finding made after leaving out the repeats of a column listed several times
+pub const MERGED_MARK: &str = "with the repeats of the repeated column left out";
+
 #[derive(Clone, Debug)]
 pub struct Finding {
     pub kind: Kind,
@@ -370,8 +373,24 @@ pub fn check_program(db: &Db, prog: &Program, insts: &[Inst]) -> Outcome {
         }
         let mut rows_reported = false;
         let mut order_reported = false;
+        // A frame that lists one named column several times comes back with the repeats merged (a recorded defect of
+        // its own, reported above as an arity finding). The rows can still be decided: they must be the reference rows
+        // with the repeats left out — otherwise a second defect hides behind the first.
+        let mut merged_projection: Option<Vec<usize>> = None;
         if arity_differs {
-            continue;
+            let mut keep: Vec<usize> = vec![];
+            for (k, c) in final_frame.cols.iter().enumerate() {
+                let repeat = c.name.is_some() && keep.iter().any(|&j| final_frame.cols[j].name == c.name);
+                if !repeat {
+                    keep.push(k);
+                }
+            }
+            let same_names = keep.len() == names.len() && keep.iter().zip(&names).all(|(&k, n)| final_frame.cols[k].name.as_deref().map(|e| e == n).unwrap_or(true));
+            if keep.len() < final_frame.cols.len() && same_names {
+                merged_projection = Some(keep);
+            } else {
+                continue;
+            }
         }
         for inst in insts {
             let reference = match Interp::run(prog, inst) {
@@ -402,7 +421,10 @@ pub fn check_program(db: &Db, prog: &Program, insts: &[Inst]) -> Outcome {
                 }
             };
             out.decided += 1;
-            let ref_rows: Vec<Vec<V>> = reference.rows.iter().map(|r| r.vals.clone()).collect();
+            let ref_rows: Vec<Vec<V>> = match &merged_projection {
+                None => reference.rows.iter().map(|r| r.vals.clone()).collect(),
+                Some(keep) => reference.rows.iter().map(|r| keep.iter().map(|&k| r.vals[k].clone()).collect()).collect(),
+            };
             hasher_acc = hasher_acc.wrapping_mul(31).wrapping_add(crate::report::fnv(&show_rows(&got)));
             if !multiset_eq(&ref_rows, &got) {
                 if !rows_reported {
@@ -411,13 +433,16 @@ pub fn check_program(db: &Db, prog: &Program, insts: &[Inst]) -> Outcome {
                         kind: Kind::Rows,
                         dialect: dn.clone(),
                         inst: Some(inst.clone()),
-                        msg: format!("rows differ on {}", inst.show()),
+                        msg: if merged_projection.is_some() { format!("rows differ, also {MERGED_MARK}, on {}", inst.show()) } else { format!("rows differ on {}", inst.show()) },
                         sql: sql.clone(),
                         expected: show_rows(&ref_rows),
                         got: show_rows(&got),
                         rows: Some((ref_rows.clone(), got.clone())),
                     });
                 }
+                continue;
+            }
+            if merged_projection.is_some() {
                 continue;
             }
             if let Some(desc) = &reference.order {
